@@ -1318,8 +1318,17 @@ cdef class ParticleArray:
             src_prop_array = self.get_carray(prop)
             dst_prop_array = dest_array.get_carray(prop)
             stride = self.stride.get(prop, 1)
-            src_prop_array.copy_values(index_array, dst_prop_array,
-                                       stride, stride*start_idx)
+            if src_prop_array.get_c_type() == dst_prop_array.get_c_type():
+                src_prop_array.copy_values(index_array, dst_prop_array,
+                                           stride, stride*start_idx)
+            else:
+                # copy_values reinterprets the bytes of another element
+                # type: convert instead.
+                dst_prop_array.get_npy_array()[stride*start_idx:] = (
+                    src_prop_array.get_npy_array().reshape(-1, stride)[
+                        index_array.get_npy_array()
+                    ].ravel()
+                )
 
         if align:
             dest_array.align_particles()
@@ -1372,7 +1381,17 @@ cdef class ParticleArray:
                 src_array = source.get_carray(prop_name)
                 dst_array = self.get_carray(prop_name)
                 stride = self.stride.get(prop_name, 1)
-                dst_array.copy_subset(src_array, start_index, end_index, stride)
+                if src_array.get_c_type() == dst_array.get_c_type():
+                    dst_array.copy_subset(src_array, start_index, end_index,
+                                          stride)
+                else:
+                    # copy_subset reinterprets the bytes of another element
+                    # type: convert instead.
+                    dst_array.get_npy_array()[
+                        start_index*stride:end_index*stride
+                    ] = src_array.get_npy_array()[
+                        :(end_index - start_index)*stride
+                    ]
 
     cpdef copy_over_properties(self, dict props):
         """ Copy the properties from one set to another.
